@@ -890,10 +890,64 @@ def run_denominator(case):
 MASKED = ["shannon_entropy", "mutual_information", "mi_matrix", "weighted_mi", "assign_to_nearest_center", "kmedoids",
           "hybrid", "kcenters"]
 
+# --------------------------------------------------------------------------
+# the iterative eigen-solver branch (sparse, >= 1000 states): the value is determined by the matrix alone
+
+@st.composite
+def big_sparse_args(draw):
+    return {"n": draw(st.sampled_from([1000, 1001, 1100])), "seed": draw(st.integers(0, 2 ** 31 - 1)),
+            "fmt": draw(st.sampled_from(["csr", "coo", "csc"])), "which": draw(st.sampled_from(["eq_probs", "eigenspectrum", "normalize"]))}
+
+
+def run_big_sparse(case):
+    n = case["n"]
+
+    def build():
+        rng = rs(case["seed"])
+        idx = np.arange(n)
+        rows = np.concatenate([idx] * 5)
+        cols = np.concatenate([(idx + 1) % n, idx, rng.permutation(n), rng.permutation(n), rng.permutation(n)])
+        vals = rng.randint(1, 40, size=5 * n).astype(float)
+        C = scipy.sparse.coo_matrix((vals, (rows, cols)), shape=(n, n)).tocsr()
+        T = scipy.sparse.diags(1.0 / np.asarray(C.sum(axis=1)).ravel()) @ C
+        return getattr(scipy.sparse, case["fmt"] + "_matrix")(C if case["which"] == "normalize" else T)
+
+    def call(M):
+        if case["which"] == "eq_probs":
+            return tm.eq_probs(M)
+        if case["which"] == "eigenspectrum":
+            return tm.eigenspectrum(M, n_eigs=3)
+        return builders.normalize(M, calculate_eq_probs=True)
+    M = build()
+    before = snapshot([M])
+    base = outcome(lambda: call(M))
+    require(base[0] == "ok", "%s failed on a %d-state sparse chain" % (case["which"], n), got=describe(base))
+    require(snapshot([M]) == before, "routine %s modified an array passed to it" % case["which"])
+    again = outcome(lambda: call(M))
+    require(again == base, "repeating %s on the same %d-state sparse matrix changed the result (iterative eigen-solver "
+            "branch)" % (case["which"], n), first=describe(base)[:200], second=describe(again)[:200])
+    fresh = outcome(lambda: call(build()))
+    require(fresh == base, "%s on freshly built equal arguments differs (%d-state sparse matrix)" % (case["which"], n))
+    for t in (1, 4, 16):
+        with threadpool_limits(limits=t):
+            got = outcome(lambda: call(build()))
+        require(got == base, "%s on a %d-state sparse matrix depends on the number of threads (%d)" % (case["which"], n, t))
+    # history: another eigen-problem in between
+    try:
+        tm.eq_probs(scipy.sparse.csr_matrix(np.full((1000, 1000), 1e-3)))
+    except Exception:
+        pass
+    got = outcome(lambda: call(build()))
+    require(got == base, "%s on a %d-state sparse matrix depends on what the process computed before" % (case["which"], n))
+    return Info(True, ["routine=big_sparse." + case["which"], "fmt=" + case["fmt"]],
+                key=[n, case["seed"], case["fmt"], case["which"]])
+
+
 CLAUSES = [
     Clause("masked_sites", routine_case(MASKED), run_case, quick=240, thorough=4000),
     Clause("all_routines", routine_case(sorted(r for r in ROUTINES if r not in LONG)), run_case, quick=1200, thorough=16000),
     Clause("threads_long_inputs", routine_case(LONG), run_case, quick=24, thorough=400),
+    Clause("iterative_eigensolver_branch", big_sparse_args(), run_big_sparse, quick=8, thorough=80),
     Clause("worker_processes", worker_case(), run_workers, quick=12, thorough=120),
     Clause("ast_denominator", st.just({"ast": True}), run_denominator, quick=4, thorough=16),
 ]
